@@ -18,7 +18,7 @@ class Gen:
         self.max_stmts = max_stmts
         self.depth = depth
         self.features = features or {"when", "if", "while", "groups", "actions", "activate", "return", "abort",
-                                     "priority", "loop", "vars", "refs", "start"}
+                                     "priority", "loop", "vars", "refs", "start", "actionmembers"}
         self.nvar = 0
 
     def has(self, f):
@@ -57,6 +57,11 @@ class Gen:
             if k < 0.22:
                 if self.has("groups") and self.r.random() < 0.3:
                     out.append(pad + "match " + self.group(self.ev))
+                elif self.has("actionmembers") and self.r.random() < 0.2:
+                    # an action event written as member of the action (no reference): every UMIM event kind
+                    a = self.r.choice(ACTIONS)
+                    m = self.r.choice(["Started()", "Finished()", "Start()", "Stop()", "Finished(x=1)"])
+                    out.append(pad + "match %s%s.%s" % (a, self.r.choice(["", "(x=1)"]), m))
                 else:
                     out.append(pad + "match " + self.ev())
             elif k < 0.36:
